@@ -71,15 +71,21 @@ class FakeResponse:
 class FakeIndex:
     """One simple index: {project: {filename: bytes}}; pages list files with relative links and sha256 fragments."""
 
-    def __init__(self, base, projects, with_hash=True, faults=None):
+    def __init__(self, base, projects, with_hash=True, faults=None, served_at=None):
         self.base = base.rstrip("/")
         self.projects = projects
         self.with_hash = with_hash
         self.faults = dict(faults or {})     # url -> list of (status, body|None) consumed first
         self.log = []
+        # a mirror / devpi-style index: the project page is *redirected*; the response carries the URL it was finally
+        # served from (`response.url`), and the page's relative links are relative to that
+        self.served_at = served_at.rstrip("/") if served_at else None
+
+    def _files_base(self):
+        return (self.served_at or self.base).rsplit("/", 1)[0] + "/files/"
 
     def handles(self, url):
-        return url.startswith(self.base + "/") or url.startswith(self.base.rsplit("/", 1)[0] + "/files/")
+        return url.startswith(self.base + "/") or url.startswith(self._files_base())
 
     def get(self, url):
         self.log.append(url)
@@ -88,7 +94,7 @@ class FakeIndex:
             status, body = script.pop(0)
             if status is not None:
                 return FakeResponse(url, status, body if body is not None else b"<html>error %d</html>" % status)
-        files_base = self.base.rsplit("/", 1)[0] + "/files/"
+        files_base = self._files_base()
         if url.startswith(files_base):
             fn = url[len(files_base):].split("#")[0]
             for files in self.projects.values():
@@ -107,7 +113,8 @@ class FakeIndex:
                             frag = "#sha256=" + hashlib.sha256(files[fn]).hexdigest() if self.with_hash else ""
                         rows.append('<a href="../../files/%s%s">%s</a><br/>' % (fn, frag, fn))
                     page = "<!DOCTYPE html><html><body><h1>Links for %s</h1>%s</body></html>" % (pname, "\n".join(rows))
-                    return FakeResponse(url, 200, page.encode())
+                    final = url if not self.served_at else self.served_at + "/" + m.group(1) + "/"
+                    return FakeResponse(final, 200, page.encode())
             return FakeResponse(url, 404, b"<html>404</html>")
         return FakeResponse(url, 404, b"<html>404</html>")
 
